@@ -77,10 +77,18 @@ theorem gather_inv (env : GEnv) (cfg : GCfg) (idx n currPos : Nat) (isCrash : Bo
           exact ⟨rfl, hinc', fun _ => rfl, fun h => absurd h hs⟩
   · cases hg
 
+/-- … for requests inside `[lo, hi)` (what a reader over paged memory guarantees where the pages are readable:
+    Theorems/EndToEndMem.lean) -/
+def ReadsExactlyIn (env : GEnv) (mem : Nat → UInt8) (lo hi : Nat) : Prop :=
+  ∀ a n bs, lo ≤ a → a + n ≤ hi → env.read a n = some bs → bs = (List.range n).map (fun k => mem (a + k))
+
+theorem ReadsExactly.within {env : GEnv} {mem : Nat → UInt8} (h : ReadsExactly env mem) (lo hi : Nat) :
+    ReadsExactlyIn env mem lo hi := fun a n bs _ _ hrd => h a n bs hrd
+
 /-- **End to end (stack region).** -/
 theorem E2E_stack_contains_sp (env : GEnv) (cfg : GCfg) (mem : Nat → UInt8) (idx n currPos : Nat) (isCrash : Bool) (sp ip : Nat)
     (m : Mapping) (start : Nat) (bytes : Bytes)
-    (hp : 0 < env.page) (hw : HullOk env.ms) (hr : ReadsExactly env mem)
+    (hp : 0 < env.page) (hw : HullOk env.ms) (hr : ReadsExactlyIn env mem m.start (m.start + m.size))
     (hf : findMapping env.ms (sp - sp % env.page) = some m) (hs : mayBeStack (some m) = true) (hsp : sp < m.start + m.size)
     (hsan : cfg.sanitize = true → WfMaps env.ms ∧ sp + 7 < 2 ^ 64)
     (hg : gatherStack env cfg idx n currPos isCrash sp ip = .ok (some (start, bytes))) :
@@ -100,7 +108,18 @@ theorem E2E_stack_contains_sp (env : GEnv) (cfg : GCfg) (mem : Nat → UInt8) (i
   rw [hgs] at hgs'
   injection hgs' with hgs'; injection hgs' with e1 e2
   subst e1; subst e2
-  have hbs := hr _ _ _ hrd
+  have hms := (findMapping_some hf).2.1
+  have hvlo : m.start ≤ v := by rcases hv4 with h | h <;> omega
+  have hin : m.start ≤ (capRegion v l sp (maxStackLen cfg.limit (extraLimit cfg.limit n currPos) idx isCrash)).1 ∧
+      (capRegion v l sp (maxStackLen cfg.limit (extraLimit cfg.limit n currPos) idx isCrash)).1 +
+        (capRegion v l sp (maxStackLen cfg.limit (extraLimit cfg.limit n currPos) idx isCrash)).2 ≤ m.start + m.size := by
+    cases hcap : maxStackLen cfg.limit (extraLimit cfg.limit n currPos) idx isCrash with
+    | none => simp only [capRegion]; omega
+    | some c =>
+      obtain ⟨hc2048, _, _, _, _, _⟩ := C06_only_extra_threads_shortened _ _ _ _ _ _ hcap
+      obtain ⟨c1, c2, _⟩ := C06_cap v l sp c (by omega) ⟨hv1, hv2⟩
+      omega
+  have hbs := hr _ _ _ hin.1 hin.2 hrd
   have hlen0 : bs.length = (capRegion v l sp (maxStackLen cfg.limit (extraLimit cfg.limit n currPos) idx isCrash)).2 := by
     rw [hbs]; simp
   -- the recorded bytes have the length of the copy
@@ -230,7 +249,7 @@ theorem E2E_crash_thread (env : GEnv) (cfg : GCfg) (c : CrashIn) (blamed idx n c
     stack pointer and starts on the stack pointer's page (or at the mapping's start). -/
 theorem E2E_crash_thread_full (env : GEnv) (cfg : GCfg) (mem : Nat → UInt8) (c : CrashIn) (blamed idx n currPos : Nat)
     (t : TInfo) (d : DThread) (m : Mapping) (start : Nat) (bytes : Bytes)
-    (hp : 0 < env.page) (hw : HullOk env.ms) (hr : ReadsExactly env mem)
+    (hp : 0 < env.page) (hw : HullOk env.ms) (hr : ReadsExactlyIn env mem m.start (m.start + m.size))
     (hf : findMapping env.ms (c.sp - c.sp % env.page) = some m) (hs : mayBeStack (some m) = true) (hsp : c.sp < m.start + m.size)
     (hsan : cfg.sanitize = true → WfMaps env.ms ∧ c.sp + 7 < 2 ^ 64)
     (hb : t.tid = blamed) (h : gatherThread env cfg (some c) blamed idx n currPos t = .ok d)
